@@ -53,7 +53,7 @@ inline Params params(int model, long mp, bool near_degenerate_ok = true) {
         case 3: p.t[0] = p.t[1] = std::pow(10.0, -(5 + (int)((mp / 16) % 6))); break;       // almost decoupled sites: level splittings of 1e-5 .. 1e-10
         case 4: p.h = std::pow(10.0, -(5 + (int)((mp / 16) % 6))); break;                   // tiny magnetic field
         case 5: p.J = 0; break;                                                             // density-density multi-orbital interaction
-        case 6: p.h = std::pow(10.0, -(4 + (int)((mp / 16) % 3))); break;                   // small field, splittings 2e-4 .. 2e-6: well above the 1e-8 tolerance (well-conditioned)
+        case 6: case 7: case 8: p.h = std::pow(10.0, -(4 + (int)((mp / 16) % 3))); break;                   // small field, splittings 2e-4 .. 2e-6: well above the 1e-8 tolerance (well-conditioned)
         default: break;
     }
     return p;
